@@ -97,7 +97,9 @@ def c16(cx):
     # recorded line numbers are the 1-based source lines, whatever blank / comment lines surround the instructions
     for k in range(40 if cx.quick() else 400):
         n = rng.randrange(3, 15)
-        src_lines, expect = ["#pragma version 8"], [1]
+        # the source may begin (and end) with blank, whitespace-only or comment lines
+        src_lines = [rng.choice(["", "   ", "\t", "// head"]) for _ in range(rng.choice([0, 0, 1, 2, 3]))]
+        src_lines.append("#pragma version 8"); expect = [len(src_lines)]
         for _ in range(n):
             c = rng.random()
             if c < 0.2: src_lines.append("")
@@ -106,6 +108,7 @@ def c16(cx):
                 src_lines.append(rng.choice(["int 1", "pop", "  txn Fee // c", "\tglobal GroupSize", "lab%d:" % len(src_lines)]))
                 expect.append(len(src_lines))
         src_lines += ["int 1", "return"]; expect += [len(src_lines) - 1, len(src_lines)]
+        src_lines += [""] * rng.choice([0, 0, 1, 2])
         try:
             t, _, _ = quiet(parse_teal, "\n".join(src_lines) + "\n")
             got = [i.line for i in t.instructions]
@@ -169,9 +172,17 @@ def c19(cx):
     for k in range(60 if cx.quick() else 600):
         body = [rng.choice(anym) for _ in range(rng.randrange(1, 5))]
         kind = rng.choice(['any', 'stateless', 'stateful', 'mixed'])
-        if kind in ('stateless', 'mixed'): body.insert(rng.randrange(0, len(body) + 1), rng.choice(stateless))
-        if kind in ('stateful', 'mixed'): body.insert(rng.randrange(0, len(body) + 1), rng.choice(stateful))
-        src = "#pragma version 8\n" + "\n".join(body) + "\nint 1\nreturn\n"
+        # the classification looks at every instruction of the program, as the AVM's program check does: whatever the
+        # declared version (a mode-specific opcode may be newer than it) and whether or not the instruction is reachable
+        dead = [] if rng.random() < 0.7 else [rng.choice(anym)]
+        def put(op):
+            tgt = dead if dead and rng.random() < 0.6 else body
+            tgt.insert(rng.randrange(0, len(tgt) + 1), op)
+        if kind in ('stateless', 'mixed'): put(rng.choice(stateless))
+        if kind in ('stateful', 'mixed'): put(rng.choice(stateful))
+        v = rng.choice([None, 1, 2, 3, 4, 5, 6, 7, 8, 8, 8])
+        src = (f"#pragma version {v}\n" if v else "") + "\n".join(body) + "\nint 1\nreturn\n"
+        if dead: src += "\n".join(dead) + "\nint 1\nreturn\n"
         try:
             t, out, err = quiet(parse_teal, src)
         except BaseException:
